@@ -28,7 +28,11 @@ BAD_VALUES = {
     'mimetype': [b'text/html', b'5'],
 }
 JSON_BODIES = [b'[]', b'5', b'"s"', b'null', b'{', b'{"a":}', b'[' * 3000, b'{"a": NaN}', b'{"a": 1e999}', b'\xff\xfe{\x00}\x00',
-               b'{"a": "\\ud800"}', b'{}', b'{"a":1,"a":2}', b'\xef\xbb\xbf{}']
+               b'{"a": "\\ud800"}', b'{}', b'{"a":1,"a":2}', b'\xef\xbb\xbf{}',
+               # ValueError that is not a JSONDecodeError: integer literal beyond the int/str conversion limit
+               b'{"a": ' + b'7' * 5000 + b'}', b'{"a": -' + b'1' * 4301 + b'}',
+               # bytes that are not valid in the effective encoding / not UTF-8 when there is none
+               b'{"a": "\xe9"}', b'{"\xff": 1}', b'{"a": "\xc3"}']
 
 
 def mutate(rng, data):
@@ -93,6 +97,11 @@ def mutate(rng, data):
     if r < 0.93:
         # replace a metadata body
         body = rng.choice(JSON_BODIES)
+        if rng.random() < 0.35:
+            # a file in which no section declares an encoding: the metadata reaches the JSON
+            # decoder as bytes
+            return (b'#diffx: version=1.0\n#.meta: format=json, length=%d\n' % (len(body) + 1) + body + b'\n' +
+                    rng.choice([b'', b'#.change:\n#..file:\n#...meta: length=3\n{}\n']))
         return data + b'#.change:\n#..file:\n#...meta: length=%d\n' % (len(body) + 1) + body + b'\n'
     k = rng.randrange(len(data) + 1)
     return data[:k] + rng.choice([b'#..file:\n', b'#...diff: length=3\n', b'\n\n', b'#.meta: length=0\n', b'#diffx: version=1.0\n']) + data[k:]
